@@ -1,4 +1,4 @@
 SPECIFICATION TSpec
-INVARIANTS PrimitivesT SealVerdictT MinedSealVerifiesT VersionT ConstT
+INVARIANTS SealSeqT PrimitivesT SealVerdictT MinedSealVerifiesT VersionT ConstT
 POSTCONDITION TraceAccepted
 CHECK_DEADLOCK FALSE
